@@ -438,15 +438,15 @@ def check_loop_and_exit_shapes(ctx: Ctx):
 
 
 def run(ctx: Ctx):
-    check_loop_and_exit_shapes(ctx)
-    best_first(ctx, ctx.func("dijkstra", "dijkstra"), astar=False)
-    best_first(ctx, ctx.func("a_star", "astar"), astar=True)
-    check_all_distances(ctx)
-    check_bfs_dfs(ctx)
-    check_bellman_ford(ctx)
-    check_all_distances(ctx)
-    check_floyd(ctx)
-    check_grid(ctx)
+    ctx.step(check_loop_and_exit_shapes)
+    ctx.step(best_first, ctx.func("dijkstra", "dijkstra"), astar=False)
+    ctx.step(best_first, ctx.func("a_star", "astar"), astar=True)
+    ctx.step(check_all_distances)
+    ctx.step(check_bfs_dfs)
+    ctx.step(check_bellman_ford)
+    ctx.step(check_all_distances)
+    ctx.step(check_floyd)
+    ctx.step(check_grid)
     generic_sweeps(ctx)
 
 
